@@ -11,8 +11,8 @@ import traceback
 from . import build
 
 VERIF = build.VERIF
-EVID = os.path.join(VERIF, "evidence")
-OUT = os.path.join(VERIF, "out")
+EVID = os.environ.get("VERIF_EVIDENCE_DIR") or os.path.join(VERIF, "evidence")
+OUT = os.environ.get("VERIF_OUT_DIR") or os.path.join(VERIF, "out")
 KNOWN = os.path.join(VERIF, "known_findings.json")
 
 
